@@ -26,7 +26,7 @@ struct targa_header_size : property_base< uint8_t >
 };
 
 /// Defines type for offset value.
-struct targa_offset : property_base< uint8_t > {};
+struct targa_offset : property_base< uint16_t > {};
 
 /// Defines type for color map type property.
 struct targa_color_map_type : property_base< uint8_t >
